@@ -203,7 +203,7 @@ def run_waits(ctx, desc):
             return ext.send(0x80 + K, struct.pack("<HB5s", code, reg, b"\x01\x02\x03\x04\x05"))
         # 1. no filter: next entry is returned
         code = random_code(rng)
-        status, val = waits.run_waiter(lambda: node.emcy.wait(None, 4), cond, lambda: send(code))
+        status, val = waits.run_waiter(lambda: node.emcy.wait(None, 40), cond, lambda: send(code))
         ctx.count("wait_cases")
         ctx.case(("wait-nofilter",))
         case = {"workload": "waits", "kind": "no-filter", "code": code}
@@ -222,7 +222,7 @@ def run_waits(ctx, desc):
                 send(wrong)
                 cond.reentered(n)       # the waiter has looked at the first frame and waits again (or has returned)
                 send(want, 7)
-            status, val = waits.run_waiter(lambda: node.emcy.wait(want, 4), cond, deliver)
+            status, val = waits.run_waiter(lambda: node.emcy.wait(want, 40), cond, deliver)
             ctx.count("wait_cases")
             ctx.case(("wait-filter", hex(want)))
             case = {"workload": "waits", "kind": "filter", "want": want, "first": wrong}
@@ -249,7 +249,7 @@ def run_waits(ctx, desc):
             ctx.violation("emcy-wait-satisfied-by-earlier-frame", f"a frame arrived before the wait and nothing after, wait() ended {status} with {val!r}", {"kind": "stale"})
         # 3c. several callers wait at once (one unfiltered, one filtered): one frame serves them all
         code2 = rng.choice([0x3210, 0x8130, 0x0000])
-        res = waits.run_waiters([lambda: node.emcy.wait(None, 4), lambda: node.emcy.wait(code2, 4), lambda: node.emcy.wait(None, 4)],
+        res = waits.run_waiters([lambda: node.emcy.wait(None, 40), lambda: node.emcy.wait(code2, 40), lambda: node.emcy.wait(None, 40)],
                                 cond, lambda: send(code2, 9))
         ctx.count("wait_cases")
         ctx.case(("wait-several-waiters", hex(code2)))
